@@ -97,6 +97,42 @@ def shapes_case(R, kind, shape, direction, seln, view):
     return None
 
 
+def large_case(kind, shape, seed):
+    """key columns with many duplicates and many distinct selected keys (numpy switches algorithms with size)"""
+    from glue.core import Data
+    r = np.random.RandomState(seed)
+    nl, nr, nd = 90, 70, 40
+    pool = {'float': np.arange(nd) * 1.25 + 0.5, 'str': np.array(['k%03d' % i for i in range(nd)]), 'int': np.arange(nd) * 1000003}[kind]
+    k1, k2 = pool[r.randint(0, nd, nl)], pool[r.randint(0, nd, nr)]
+    s1, s2 = pool[r.randint(0, nd, nl)], pool[r.randint(0, nd, nr)]
+    dl = Data(k=k1, s=s1, v=np.arange(nl, dtype=float), label='L')
+    dr = Data(k=k2, s=s2, w=r.uniform(0, 1, nr), label='R')
+    lc = {'1-1': ('k',), 'n-n': ('k', 's'), '1-n': ('k',), 'n-1': ('k', 's')}[shape]
+    rc = {'1-1': ('k',), 'n-n': ('k', 's'), '1-n': ('k', 's'), 'n-1': ('k',)}[shape]
+    dl.join_on_key(dr, lc if len(lc) > 1 else lc[0], rc if len(rc) > 1 else rc[0])
+    state = dr.id['w'] > 0.45
+    right_sel = np.asarray(dr['w']) > 0.45
+    L = [np.asarray(dl[c]) for c in lc]
+    Rr = [np.asarray(dr[c])[right_sel] for c in rc]
+    if shape == '1-1':
+        ks = set(Rr[0].tolist()); exp = [x in ks for x in L[0].tolist()]
+    elif shape == 'n-n':
+        ks = set(zip(*[c.tolist() for c in Rr])); exp = [t in ks for t in zip(*[c.tolist() for c in L])]
+    elif shape == '1-n':
+        ks = set(Rr[0].tolist()) | set(Rr[1].tolist()); exp = [x in ks for x in L[0].tolist()]
+    else:
+        ks = set(Rr[0].tolist()); exp = [(a in ks) or (b in ks) for a, b in zip(L[0].tolist(), L[1].tolist())]
+    try:
+        got = np.asarray(dl.get_mask(state))
+    except Exception as e:
+        return ('exception:%s' % type(e).__name__, "%s: %s" % (type(e).__name__, e))
+    exp = np.array(exp)
+    if not np.array_equal(got, exp):
+        bad = np.flatnonzero(got != exp)
+        return ('mask', "%d of %d rows differ from key membership (first: row %d with key %r selected=%s)" % (bad.size, nl, bad[0], L[0][bad[0]], bool(got[bad[0]])))
+    return None
+
+
 def chain_case(n, cyclic, evaluable):
     """datasets D0..D(n-1) joined in a chain (or cycle) on 1-1 keys; the selection is defined on D(n-1) (or on a foreign dataset)"""
     from glue.core import Data
@@ -164,6 +200,14 @@ def run(tier, seed, R):
                             R.fail("join|%s|%s|%s" % (shape, kind, r[0]), "%s join on %s keys (%s, selection %s, view %r): %s" % (shape, kind, direction, seln, view, r[1]),
                                    "import numpy as np\nfrom numpy import array\nfrom bounded.c11_joins import shapes_case\nr = shapes_case(None, %r, %r, %r, %r, %r)\nprint(r)\nsys.exit(1 if r else 0)\n"
                                    % (kind, shape, direction, seln, view))
+    for kind in ('float', 'str', 'int'):
+        for shape in ('1-1', 'n-n', '1-n', 'n-1'):
+            for sd in range(3 if tier == 'quick' else 12):
+                r = large_case(kind, shape, seed * 100 + sd)
+                R.count(('large', kind, shape, sd), 'join-large')
+                if r is not None:
+                    R.fail("join-large|%s|%s|%s" % (shape, kind, r[0]), "%s join on %s keys, 90x70 rows with duplicates, ~35 selected rows: %s" % (shape, kind, r[1]),
+                           "from bounded.c11_joins import large_case\nr = large_case(%r, %r, %d)\nprint(r)\nsys.exit(1 if r else 0)\n" % (kind, shape, seed * 100 + sd))
     for n in (2, 3, 4):
         for cyclic in (False, True):
             for evaluable in (True, False):
